@@ -27,11 +27,9 @@ func parseListItem(line []byte) ([6]int, listItemType) {
 	i := 0
 	l := len(line)
 	ret := [6]int{}
-	for ; i < l && line[i] == ' '; i++ {
-		c := line[i]
-		if c == '\t' {
-			return ret, notList
-		}
+	// (callers have checked that the indentation is narrower than four
+	// columns when it contains a tab)
+	for ; i < l && (line[i] == ' ' || line[i] == '\t'); i++ {
 	}
 	if i > 3 {
 		return ret, notList
@@ -199,7 +197,7 @@ func (b *listParser) Continue(node ast.Node, reader text.Reader, pc Context) Sta
 	if indent < offset || lastIsEmpty {
 		if indent < 4 {
 			match, typ := matchesListItem(line, false) // may have a leading spaces more than 3
-			if typ != notList && match[1]-offset < 4 {
+			if typ != notList && indent-offset < 4 {
 				marker := line[match[3]-1]
 				if !list.CanContinue(marker, typ == orderedList) {
 					return Close
